@@ -5,3 +5,6 @@ INVARIANT PrefixIsWholeDegrees
 INVARIANT BandLimitWithinRetained
 INVARIANT UniformCase
 INVARIANT ObsConforms
+INVARIANT RouteConforms
+INVARIANT RouteLaws
+INVARIANT CallModeLaws
